@@ -44,7 +44,8 @@ def check(repo, tier="quick"):
         "is_allowed_combination and allowed_values_for; must-store of every accepted value in assert_level_constraint; cell-kind dispatch and "
         "indexing of read_constraints_from_csv; shape of membership, union and range merging."
     )
-    res.rule("C17.f", "bug patterns with zero expected instances in this property's modules: swapped same-named arguments, lower-bound guard followed by a decrement of the guarded value, presence of a dictionary entry decided by truthiness")
+    res.rule("C17.f", "bug patterns with zero expected instances in this property's modules: swapped same-named arguments, lower-bound guard followed by a decrement of the guarded value, presence of a dictionary entry decided by truthiness; no state kept between calls in the constraint-table module (no cache of tables read)")
+    res.rule("C17.g", "disjointness from the universal set: ValueSet.is_disjoint(AnyValue()) is True exactly when the set holds neither values nor ranges (both containers are consulted), and AnyValue.is_disjoint delegates to it")
     res.rule("C17.a", "AnyValue creates neither _values nor _ranges: every ValueSet method that reads them on self is overridden in AnyValue, and every read of them on another operand is reached only when that operand is not an AnyValue")
     res.rule("C17.b", "membership is `in _values` or inclusive containment in some range; union inserts the values and ranges of both operands; add_range merges every stored range that overlaps the (growing) new one and removes covered values")
     res.rule("C17.c", "is_allowed_combination == (filter_constraint_table non-empty); allowed_values_for unions column.get(key, empty) over filter_constraint_table(table, values); the filter keeps a column iff every given key is present with the value in its set (or the column is empty)")
@@ -64,6 +65,11 @@ def check(repo, tier="quick"):
     from .. import lints as _lints
 
     _lints.rule(repo, res, "C17.f", ['constraint_table', 'decoder.assertions'])
+    from .. import globals_state as _gs
+
+    _gs.rule(repo, res, "C17.f", ['constraint_table', 'level_constraints'], what="the table read from a file or the answer to a query (a second read of a rewritten file, or a caller's edit of an earlier result, would show through)")
+    rule_disjoint(repo, res)
+    res.floor("C17.g", 2)
     res.floor("C17.f", 3)
     res.floor("C17.a", 8)
     res.floor("C17.b", 6)
@@ -385,3 +391,39 @@ def rule_e(repo, res, m, where):
         if isinstance(n, ast.IfExp) and isinstance(n.test, ast.Compare) and const_str(n.test.comparators[0]) in ("true", "false") and isinstance(n.body, ast.Constant):
             bools[const_str(n.test.comparators[0])] = n.body.value
     res.check(split and bools == {"true": True, "false": False}, "C17.e", "cells:comma-list-and-booleans", w, "cells are comma-separated lists; TRUE/FALSE map to True/False (found %s)" % bools, by="split(','), true->True, false->False")
+
+
+def rule_disjoint(repo, res):
+    m, vs = repo.cls(CT + ":ValueSet")
+    fn = class_methods(vs).get("is_disjoint")
+    if fn is None:
+        raise AnalysisError("anchor vanished: ValueSet.is_disjoint")
+    where = "%s:ValueSet.is_disjoint" % m.rel
+    other = fn.args.args[1].arg
+    arm = None
+    for n in ast.walk(fn):
+        if isinstance(n, ast.If) and norm(n.test) == "isinstance(%s, AnyValue)" % other:
+            arm = n
+    ok = False
+    found = "no `if isinstance(other, AnyValue):` arm"
+    if arm is not None:
+        body = arm.body
+        forms_true_iff_empty = (
+            ["if self._values or self._ranges: return False\nelse: return True"],
+            ["if self._ranges or self._values: return False\nelse: return True"],
+            ["return not (self._values or self._ranges)"],
+            ["return not (self._ranges or self._values)"],
+            ["return not self._values and not self._ranges"],
+            ["return not self._ranges and not self._values"],
+            ["return len(self._values) == 0 and len(self._ranges) == 0"],
+            ["return len(self._ranges) == 0 and len(self._values) == 0"],
+        )
+        got = [norm(b) for b in body]
+        want = [[norm(x) for x in ast.parse(f[0]).body] for f in forms_true_iff_empty]
+        ok = got in want
+        found = "; ".join(short(b, 60) for b in body)
+    res.check(ok, "C17.g", "is_disjoint:any-value-arm", where, "against AnyValue a set is disjoint exactly when it has neither values nor ranges: both self._values and self._ranges must be consulted (found `%s`); a set holding only ranges is otherwise reported disjoint from the universal set" % found, by="True iff not (_values or _ranges)")
+    am, av = repo.cls(CT + ":AnyValue")
+    afn = class_methods(av).get("is_disjoint")
+    ok = afn is not None and any(isinstance(r, ast.Return) and norm(r.value) == "%s.is_disjoint(self)" % afn.args.args[1].arg for r in ast.walk(afn))
+    res.check(ok, "C17.g", "AnyValue.is_disjoint:delegates", "%s:AnyValue.is_disjoint" % am.rel, "AnyValue.is_disjoint(other) must return other.is_disjoint(self)", by="other.is_disjoint(self)")
